@@ -3880,7 +3880,10 @@ fn write_residuals<W: BitWrite>(
                     .rev()
                     .map(|partition| Partition::new(partition, &mut estimated_bits))
                     .collect::<Option<ArrayVec<_, MAX_PARTITIONS>>>()
-                    .filter(|p| !p.is_empty() && p.len().is_power_of_two())?;
+                    // the decoder derives the layout from the partition order alone,
+                    // so only a split into exactly the requested number of
+                    // partitions (first one shortened by the predictor order) is usable
+                    .filter(|p| p.len() == partition_count)?;
 
                 Some((partitions, estimated_bits))
             })
